@@ -146,3 +146,123 @@ Print Assumptions curve_derivs_is_true_derivative_general.
 Print Assumptions curve_derivs_consecutive_general.
 Print Assumptions curve_derivs_right_derivative_general.
 Print Assumptions curve_tangent_is_derivative_general.
+
+(* ------------------------------------------------------------------------------------------------ *)
+(* The closed right end of the domain.  At u = U_n (n = number of control points) the span search returns the last  *)
+(* span n-1 and A3.2 evaluates the polynomial pieces of that span at its right knot: the returned vectors are the    *)
+(* one-sided (left) derivatives of each other, i.e. the left-hand limits of the derivatives inside the last span.    *)
+Definition left_derivable_pt_lim (f : R -> R) (x l : R) : Prop :=
+  forall eps : R, 0 < eps ->
+  exists delta : R, 0 < delta /\
+    forall h : R, h < 0 -> - delta < h -> Rabs ((f (x + h) - f x) / h - l) < eps.
+
+Lemma dl_local_left (g f : R -> R) a x l :
+  a < x -> (forall y, a < y <= x -> g y = f y) ->
+  derivable_pt_lim g x l -> left_derivable_pt_lim f x l.
+Proof.
+  intros Hx Hfg Hg eps Heps. destruct (Hg eps Heps) as [delta Hd].
+  exists (Rmin delta (x - a)). split.
+  { apply Rmin_pos; [apply cond_pos | lra]. }
+  intros h Hh Hlt.
+  assert (H1 : - delta < h) by (eapply Rle_lt_trans; [|exact Hlt]; apply Ropp_le_contravar, Rmin_l).
+  assert (H2 : - (x - a) < h) by (eapply Rle_lt_trans; [|exact Hlt]; apply Ropp_le_contravar, Rmin_r).
+  rewrite <- (Hfg (x + h)) by lra. rewrite <- (Hfg x) by lra.
+  apply Hd; [lra|]. rewrite Rabs_left by exact Hh. lra.
+Qed.
+
+Lemma dNk_above_degree (V : nat -> R) s : forall j p i x, (p < j)%nat -> dNk V s j p i x = 0.
+Proof.
+  induction j as [|j IH]; intros p i x H; [lia|].
+  destruct p as [|q]; [reflexivity|]. rewrite dNk_SS, !IH by lia. unfold Rdiv. ring.
+Qed.
+
+Section CurveEnd.
+Variables (U : list R) (P : list (list R)) (p dim : nat).
+Hypothesis Usorted : sortedR U.
+Hypothesis Hwf : wf_net P dim.
+Hypothesis Hp : (p < length P)%nat.
+Hypothesis HL : length U = (length P + p + 1)%nat.
+
+(* the k-th derivative of the polynomial piece of the curve on span s (only the p+1 active control points) *)
+Definition curve_dk_piece (s k d : nat) (x : R) : R :=
+  sumf (fun j => dNk (Ufun U) s k p (s - p + j) x * coord P (s - p + j) d) (S p).
+
+Lemma curve_dk_piece_deriv s k d x :
+  derivable_pt_lim (curve_dk_piece s k d) x (curve_dk_piece s (S k) d x).
+Proof.
+  unfold curve_dk_piece.
+  apply (sumf_deriv (fun j y => dNk (Ufun U) s k p (s - p + j) y) (fun j y => dNk (Ufun U) s (S k) p (s - p + j) y)
+                    (fun j => coord P (s - p + j) d)).
+  intros j. apply dNk_deriv. apply Ufun_sorted. exact Usorted.
+Qed.
+
+(* [G] every degree, every u >= U_p (inside the domain, at its closed right end, or beyond), every order and k <= order:
+   A3.2 returns the k-th derivative of the polynomial piece of the span found by the span search *)
+Theorem curve_derivs_is_piece u order k d :
+  knR U p <= u -> (k <= order)%nat -> (d < dim)%nat ->
+  nth d (nth k (curve_derivs Rops dim p U P u order) []) 0
+  = curve_dk_piece (find_span_linear Rops p U (length P) u) k d u.
+Proof.
+  intros Hu Hk Hd. set (n := length P) in *.
+  pose proof (find_span_linear_spec U u p n Hp ltac:(lia) Hu) as Hsp. cbv zeta in Hsp.
+  destruct Hsp as (Hs1 & _ & _).
+  unfold curve_derivs. fold n. rewrite nth_map_seq_g by lia. cbn [Nat.add].
+  set (span := find_span_linear Rops p U n u) in *.
+  destruct (Nat.leb_spec k (Nat.min p order)) as [Hkd|Hkd].
+  - destruct (curve_point_at_sum dim p P span (nth k (basis_function_ders Rops p U span u (Nat.min p order)) []) Hwf
+                ltac:(lia) ltac:(lia)) as [_ Hn]. cbn zeta in Hn.
+    rewrite Hn by exact Hd. unfold curve_dk_piece. apply sumf_ext. intros j Hj. f_equal.
+    apply (ders_general_pieces U span p Usorted); lia.
+  - rewrite vzero_nth. unfold curve_dk_piece. symmetry. apply sumf_zero. intros j _.
+    rewrite dNk_above_degree by lia. ring.
+Qed.
+
+(* the span search on (U_{n-1}, U_n] *)
+Lemma find_span_last u : knR U (length P - 1) < u <= knR U (length P) ->
+  find_span_linear Rops p U (length P) u = (length P - 1)%nat.
+Proof.
+  intros [Hu1 Hu2]. set (n := length P) in *.
+  assert (Hpu : knR U p <= u). { assert (knR U p <= knR U (n - 1)) by (apply Usorted; lia). lra. }
+  pose proof (find_span_linear_spec U u p n Hp ltac:(lia) Hpu) as Hsp. cbv zeta in Hsp.
+  destruct Hsp as (Hs1 & Hs2 & [Hs3|[Hs3 _]]); [|exact Hs3].
+  set (k := find_span_linear Rops p U n u) in *.
+  destruct (Nat.eq_dec k (n - 1)) as [E|E]; [exact E|exfalso].
+  assert (knR U (S k) <= knR U (n - 1)) by (apply Usorted; lia). lra.
+Qed.
+
+(* [G] at the closed right end: CK[k+1](U_n) is the left derivative at U_n of x |-> CK[k](x), coordinate-wise *)
+Theorem curve_derivs_left_derivative_at_end order k d :
+  (S k <= order)%nat -> (d < dim)%nat -> knR U (length P - 1) < knR U (length P) ->
+  left_derivable_pt_lim (fun x => nth d (nth k (curve_derivs Rops dim p U P x order) []) 0) (knR U (length P))
+                        (nth d (nth (S k) (curve_derivs Rops dim p U P (knR U (length P)) order) []) 0).
+Proof.
+  intros Hk Hd Hne. set (n := length P) in *.
+  assert (Hpn : knR U p <= knR U (n - 1)) by (apply Usorted; lia).
+  apply (dl_local_left (curve_dk_piece (n - 1) k d) _ (knR U (n - 1))); [exact Hne| |].
+  - intros y Hy. rewrite curve_derivs_is_piece by (try assumption; try lia; lra).
+    fold n. rewrite find_span_last by (fold n; exact Hy). reflexivity.
+  - rewrite curve_derivs_is_piece by (try assumption; try lia; lra).
+    fold n. rewrite find_span_last by (fold n; lra). apply curve_dk_piece_deriv.
+Qed.
+
+(* and inside the last span the piece is the curve: so CK[k](U_n) is the left-hand limit of the k-th derivative *)
+Theorem curve_derivs_piece_is_dk u k d :
+  knR U p <= u < knR U (length P) ->
+  curve_dk_piece (find_span_linear Rops p U (length P) u) k d u = curve_dk U p P k d u.
+Proof.
+  intros Hu. set (n := length P) in *.
+  destruct (span_facts U u p n Hp ltac:(lia) Hu) as [Hk1 Hk2].
+  set (span := find_span_linear Rops p U n u) in *.
+  unfold curve_dk, curve_dk_piece. fold n. rewrite (sumf_window _ (span - p) (S p) n); try lia.
+  - apply sumf_ext. intros j Hj. f_equal. symmetry.
+    apply (dN_eq_dNk (Ufun U) (Ufun_sorted U Usorted) span).
+    replace (S span) with (span + 1)%nat by lia. rewrite !Ufun_in by lia. exact Hk2.
+  - intros i Hi. rewrite (dNa_outside U k p i u span Usorted ltac:(lia) Hk2) by lia. ring.
+  - intros i Hi. rewrite (dNa_outside U k p i u span Usorted ltac:(lia) Hk2) by lia. ring.
+Qed.
+End CurveEnd.
+
+Check curve_derivs_is_piece.
+Check curve_derivs_left_derivative_at_end.
+Print Assumptions curve_derivs_is_piece.
+Print Assumptions curve_derivs_left_derivative_at_end.
